@@ -8,6 +8,8 @@ Decided on the polymorphic MIR (holds for every SIZE, Hal, Transport, history):
     wrapping_add(previous trusted value, 1).
  O4 indirect tables are finished before they are handed to the device (no store after Leak).
  O5 consumer side: used.ring loads are dominated by an Acquire/SeqCst load of used.idx.
+ O6 completeness: on the submission path every descriptor field (addr,len,flags,next) is copied shadow->device
+    table before the index store, so no published chain contains a stale field.
 """
 from .common import *
 
@@ -103,6 +105,9 @@ def run(F, R):
                 v = ist.value
                 ok3, why3 = monotone_value(sg, ist, v)
                 R.check(ok3, 'O3', inst + ':value', site(sg, ist.node), why3, why3)
+            # O6 every descriptor field the device follows is refreshed from the shadow table before publication
+            from .C01 import f6_coherence
+            f6_coherence(F, R, M, sg, acc, rule='O6')
             # O4
             leaks = [n for n in sg.calls(lambda d: d.get('fn', '').startswith('alloc::boxed::Box::<') and d['fn'].endswith('::leak')
                                          or d.get('fn', '').endswith('::into_raw') and 'Box' in d.get('fn', '')
